@@ -91,6 +91,20 @@ CLAIMS = {
              "subset (anything outside the subset is exit 2, never a pass). Exhaustive over the finite tag domain.",
         technique="finite abstract interpretation of the source (automaton extraction) + exhaustive law checking with partition refinement",
         design="2/C04"),
+    "C03": dict(
+        text="A typing discipline over ALL construction sites of the package (208 sites; 76 with an explicit dtype or via "
+             "copy): each (data provenance, dtype provenance) pair - computed by reaching definitions - must be admissible: "
+             "computed/concatenated/buffered values may never carry an operand's dtype, a constant bool dtype needs "
+             "syntactically boolean elements, non-nullable constants need elements that cannot be None, with_nullable(False) "
+             "needs the not-None filter, copy() callers must pass the receiver's own elements, cast/fillna/new idioms are "
+             "verified by shape. Plus exact abstract evaluation of Vector.__setitem__'s validation loop over every (vector "
+             "dtype, running target, value type) cell (accept/widen/reject, no early exit, no write before the end, target "
+             "applied before the store), of _promote/_can_promote, of validate_scalar (never accepts a non-member), and of "
+             "the inference automaton (the inferred dtype admits every type that may have been seen).",
+        note="Trusted: provenance recognisers (unclassifiable site => exit 2, never pass); evaluator semantics on type tags; "
+             "values produced by user callables are typed by inference at the site (truthful by construction).",
+        technique="construction-site provenance typing (reaching definitions) + finite abstract interpretation of the assignment/validation code",
+        design="2/C03"),
 }
 
 PENDING = "static rules for this property are designed (DESIGN.md section 2) but not yet built in this round; not claimed yet"
